@@ -31,18 +31,18 @@ type NetFaults struct {
 }
 
 type pipeHalf struct {
-	buf      []byte
-	window   int
-	wclosed  bool // writer side closed: reader gets EOF after draining
-	rclosed  bool // reader side closed: writer gets an error
-	data     chan struct{}
-	space    chan struct{}
-	wlock    chan struct{} // one Write at a time (as on a real socket)
-	written  int
-	resetAt  int
-	frag     int
-	stalled  bool // receiver not reading (fault)
-	resume   chan struct{}
+	buf     []byte
+	window  int
+	wclosed bool // writer side closed: reader gets EOF after draining
+	rclosed bool // reader side closed: writer gets an error
+	data    chan struct{}
+	space   chan struct{}
+	wlock   chan struct{} // one Write at a time (as on a real socket)
+	written int
+	resetAt int
+	frag    int
+	stalled bool // receiver not reading (fault)
+	resume  chan struct{}
 }
 
 func newHalf(window, frag, resetAt int) *pipeHalf {
@@ -63,13 +63,13 @@ func (h *pipeHalf) wake(ch *chan struct{}) {
 
 // SimConn is one end of a simulated stream connection.
 type SimConn struct {
-	name   string
-	rd, wr *pipeHalf
-	closed bool
-	peer   *SimConn
-	c      *Ctx
-	nWrite int
-	werrAt int
+	name              string
+	rd, wr            *pipeHalf
+	closed            bool
+	peer              *SimConn
+	c                 *Ctx
+	nWrite            int
+	werrAt            int
 	BytesIn, BytesOut int
 }
 
@@ -207,12 +207,12 @@ type wsFrame struct {
 }
 
 type wsHalf struct {
-	q       []wsFrame
-	cap     int
-	closed  bool
-	data    chan struct{}
-	space   chan struct{}
-	wlock   chan struct{}
+	q      []wsFrame
+	cap    int
+	closed bool
+	data   chan struct{}
+	space  chan struct{}
+	wlock  chan struct{}
 }
 
 func newWSHalf(capacity int) *wsHalf {
@@ -224,16 +224,16 @@ func newWSHalf(capacity int) *wsHalf {
 
 // FakeWS is one end of a simulated websocket (gorilla's framing is not simulated).
 type FakeWS struct {
-	name     string
-	rd, wr   *wsHalf
-	closed   bool
-	proto    string
-	pingH    func(string) error
-	pongH    func(string) error
-	c        *Ctx
-	peer     *FakeWS
-	nWrite   int
-	werrAt   int
+	name   string
+	rd, wr *wsHalf
+	closed bool
+	proto  string
+	pingH  func(string) error
+	pongH  func(string) error
+	c      *Ctx
+	peer   *FakeWS
+	nWrite int
+	werrAt int
 }
 
 const (
